@@ -201,6 +201,10 @@ def gen_request(rng, endpoint, **over):
   task_options = sorted({round(rng.uniform(0.05, 1.0), 3) for _ in range(n_tasks)}) if n_tasks else []
   if task_options and 1.0 not in task_options and rng.random() < 0.5:
     task_options[-1] = 1.0
+  while n_tasks and len(task_options) < 2:
+    # a multitask experiment has at least two distinct task costs (the library builds the task dimension [min, max] and
+    # asserts min < max); a collapsed draw is not a request
+    task_options = sorted(set(task_options) | {round(rng.uniform(0.05, 0.95), 3)})
   task_costs = [rng.choice(task_options) for _ in range(n)] if task_options else None
   n_pending = over.get("pending", rng.choice([0, 0, 1, 2, 4]))
   pending = gen_points(rng, dspec, n_pending, np_seed + 1)
